@@ -196,6 +196,15 @@ func (w *World) Scan(faults []Fault) *Line {
 			line.Lookups[c.G] = append(line.Lookups[c.G], c.N)
 			continue
 		}
+		// fleet path: readiness polls depend on timing (drop "not ready" polls, collapse the others); counts and refusal reasons are not modelled
+		if c.Op == "status" {
+			if !c.Ok || (len(line.Calls) > 0 && line.Calls[len(line.Calls)-1].Op == "status") {
+				continue
+			}
+		}
+		if c.Op == "attach" || c.Op == "terminate_instances" {
+			c.N, c.S = "", ""
+		}
 		line.Calls = append(line.Calls, c)
 	}
 	for _, g := range w.Gorder {
